@@ -183,7 +183,7 @@ impl Prop for C20 {
     fn rule(&self) -> String {
         format!(
             "The driver crate harness/c20drv is built from the current tree under these configurations: {}. Each generated case (two Decimal representations, an integer, n, mode, a string) is evaluated by persistent driver processes of every build for ~340 public operations \
-             (+ - * / % and their checked, rounded and compound-assignment forms, every integer-operand form of all 9 integer types on either side, round, quantize, unary ops, all comparison operators, min/max/clamp/sort, hashing, ratio, Display/Debug/format, from_str, serde, float and integer conversions, rkyv). \
+             (+ - * / % and their checked, rounded and compound-assignment forms, every integer-operand form of all 9 integer types on either side, round, quantize, unary ops, all comparison operators, min/max/clamp/sort, hashing, ratio, Display/Debug/format, from_str, serde, float and integer conversions, rkyv, the num-traits methods). \
              Cases come from the union of the C01-C06 and C10 generators (all overflow-boundary, tie and wide-path classes). Oracle: (1) differential - every build prints the identical outcome (value / None / Err kind / panic; panic messages excluded); \
              (2) the reference build's outcomes for + - * / % checked_* mul_rounded div_rounded round checked_round and integer products are compared with the exact oracle. \
              Non-trivial: some operation panics / returns None in the reference build or its exact result lies within 2^8 of +-2^127. Distinct: hash of the case.",
@@ -269,22 +269,27 @@ impl Prop for C20 {
         }
         // ---- differential
         let mut agree = true;
-        for (bi, o) in outs.iter().enumerate().skip(1) {
-            if o == reference {
-                continue;
-            }
-            let of: Vec<(&str, &str)> = o.split('|').filter(|s| !s.is_empty()).filter_map(|kv| kv.split_once('=')).collect();
-            for (k, (name, v)) in rf.iter().enumerate() {
-                let other = of.get(k).map(|p| p.1).unwrap_or("<missing>");
-                if *v == "X" || other == "X" {
-                    continue; // operation not available in one of the feature sets
+        let fields: Vec<Vec<(&str, &str)>> = outs.iter().map(|o| o.split('|').filter(|s| !s.is_empty()).filter_map(|kv| kv.split_once('=')).collect()).collect();
+        for (k, (name, _)) in rf.iter().enumerate() {
+            // the first build in which the operation exists ("X": not available with that feature set)
+            // is the base the others are compared with
+            let mut base: Option<(usize, &str)> = None;
+            for (bi, f) in fields.iter().enumerate() {
+                let v = f.get(k).map(|p| p.1).unwrap_or("<missing>");
+                if v == "X" {
+                    continue;
                 }
-                if *v != other {
-                    agree = false;
-                    ctx.fail(
-                        &format!("C20/build-differs:{name}"),
-                        format!("{case:?}: operation '{name}' gives [{v}] in build '{}' but [{other}] in build '{}'", self.builds[0].name, self.builds[bi].name),
-                    );
+                match base {
+                    None => base = Some((bi, v)),
+                    Some((b0, v0)) => {
+                        if v != v0 {
+                            agree = false;
+                            ctx.fail(
+                                &format!("C20/build-differs:{name}"),
+                                format!("{case:?}: operation '{name}' gives [{v0}] in build '{}' but [{v}] in build '{}'", self.builds[b0].name, self.builds[bi].name),
+                            );
+                        }
+                    }
                 }
             }
         }
